@@ -40,7 +40,9 @@ CONFIG = {
         "array / map item switches are modelled but reached on the Go side by the codec oracle only; internal/codec itself is "
         "the codec cluster's model",
         "J5V/Schema/CodecBridge.lean toEnv (the reflected registry rendered as the codec model's Env) is not validated by a "
-        "stream; C18_reflected_itemsOk depends only on the field shapes, which are the reader model's",
+        "stream; C18_reflected_itemsOk depends only on the field shapes, which are the reader model's. C18_empty_message and "
+        "C18_reflected_decode_no_panic are statements about the codec cluster's model (J5V/Codec/{Encode,Decode}.lean, "
+        "imported read-only; its tie to internal/codec is C01/C06's correspondence, not this check's)",
     ],
     "assumptions": [
         "RangeFiles order is unspecified; the model reflects file-level messages in declaration order. The class of the "
